@@ -117,7 +117,7 @@ Lemma aoh_diff_key_nokeys : forall c n p r, c_keys c = [] ->
   match n with NMap _ (kv :: _) => (fst kv, false) | _ => (str_leaf "", true) end.
 Proof.
   intros c n p r H. unfold aoh_diff_key, get_config_for. rewrite H.
-  destruct (has_config c); simpl; reflexivity.
+  destruct (d_has_config c); simpl; reflexivity.
 Qed.
 
 (* the identity value of a well-keyed record, as the model reads it *)
